@@ -1,11 +1,18 @@
 import Mdns.Lemmas.Sched
+import Mdns.Lemmas.ClientTimers
+import Mdns.Props.C17
 /-
-  C12  The daemon wakes itself for all time-driven work and never spins (scheduler fragment).
+  C12  The daemon wakes itself for all time-driven work and never spins.
 
-  Model: `Mdns/Model/Sched.lean`; its requested wake-up (`wake`) is compared with the real
-  daemon's at every iteration of every history without responders.
+  First part: the scheduler fragment `Mdns/Model/Sched.lean` (its requested wake-up `wake` is
+  compared with the real daemon's at every iteration of every history without responders).
+  Second part (`section ClientModel`): the client model `Mdns/Model/Client.lean`, whose
+  requested wake-up is compared with the real daemon's at every iteration of every client
+  history: the invariant `TimersCover` over whole histories, for every input.
 -/
 namespace Mdns.Props.C12
+
+section SchedFragment
 open Mdns Mdns.Sched
 
 /-- every queued retransmission has a timer at its due time (`add_retransmission`) -/
@@ -63,5 +70,202 @@ theorem passed_timers_popped (s : State) (now : Nat) :
   exact ht.2
 
 example : wake (init 1000000) = some 1005000 := by decide
+
+end SchedFragment
+
+/-! ### the client model: the timers cover all time-driven work -/
+
+section ClientModel
+open Mdns Mdns.Rec Mdns.Cache Mdns.Client
+
+/-- **The timers cover the time-driven work of the state that lies after `T`** (`T` = the time of
+    the last `pop_timers_till`, i.e. of the last iteration):
+    * `cache`: for EVERY cached entry (whether or not a browse or a search is interested in it)
+      the expiry instant is a timer, and so is the refresh mark while it lies before the expiry
+      (`EntryTimed`); a `verify` deadline is the expiry instant of the entries it capped;
+    * `reruns`: every queued re-run - retransmission of a browse / `resolve_hostname`, follow-up
+      `Resolve`, `verify` resend - has a timer at its due time;
+    * `deadlines`: every deadline of an open hostname search is a timer;
+    * `ipcheck`: so is the next interface check, unless switched off. -/
+structure TimersCover (T : Nat) (s : State) : Prop where
+  cache : CacheTimed s.timers T s.cache
+  reruns : ∀ r ∈ s.reruns, T < r.next → r.next ∈ s.timers
+  deadlines : ∀ q ∈ s.resolvers, ∀ dl, q.2.2 = some dl → T < dl → dl ∈ s.timers
+  ipcheck : s.nextIpCheck ≠ 0 → T < s.nextIpCheck → s.nextIpCheck ∈ s.timers
+
+/-- the side conditions `TimersCover` is carried with: the cache is justified by deliveries, the
+    names of its tables are distinct, the back-off delays are between a second and an hour -/
+structure WellFormed (hist : List Delivery) (s : State) : Prop where
+  prov : CacheProv hist s.cache
+  keys : KeysNodup s.cache
+  delays : ∀ r ∈ s.reruns, DelayOk r
+
+theorem wellFormed_iter (hist : List Delivery) (s : State) (now : Nat) (pkts : List Packet) (cmds : List Command)
+    (h : WellFormed hist s) : WellFormed (hist ++ deliveries s now pkts) (iter s now pkts cmds).1 :=
+  ⟨(ok_iter hist s now pkts cmds h.prov).1, closed_iter (keysNodup_closed now) s pkts cmds h.keys,
+   delayOk_iter hist s now pkts cmds h.prov h.delays⟩
+
+/-- **TimersCover is preserved by an iteration, for every input** (any time `now`, any
+    datagrams, any commands): afterwards the timers cover all work that lies after the later
+    of `T` and `now`.  This is the statement that a change like "the refresh timer is only
+    pushed while a browse is active" breaks: `ingestOne` arms `expires` and `refresh` of the
+    entry `add_or_update` returns unconditionally (`Props.C17.refresh_timer_armed`). -/
+theorem timersCover_iter (hist : List Delivery) (T : Nat) (s : State) (now : Nat) (pkts : List Packet)
+    (cmds : List Command) (hw : WellFormed hist s) (h : TimersCover T s) :
+    TimersCover (max T now) (iter s now pkts cmds).1 := by
+  have hev := evolves_iter hist s now pkts cmds hw.prov hw.delays
+  refine ⟨timed_iter T s now pkts cmds hw.keys h.cache, ?_, ?_, ?_⟩
+  · intro r hr hlt
+    rcases hev.reruns r hr with h1 | ⟨h1, _⟩
+    · exact hev.timers_old _ (h.reruns r h1 (by omega)) (by omega)
+    · exact h1
+  · intro q hq dl hdl hlt
+    rcases hev.resolvers q hq with h1 | ⟨_, _, _, _, h5⟩
+    · exact hev.timers_old _ (h.deadlines q h1 dl hdl (by omega)) (by omega)
+    · exact h5 dl hdl
+  · intro hne hlt
+    rcases hev.ip with ⟨h1, _⟩ | ⟨h1, _⟩ | ⟨h1, _⟩
+    · rw [h1] at hne hlt ⊢
+      exact hev.timers_old _ (h.ipcheck hne (by omega)) (by omega)
+    · exact absurd h1 hne
+    · exact h1
+
+/-- the latest iteration time of a history (`T` if it has none) -/
+def maxTime : Nat → List (Nat × List Packet × List Command) → Nat
+  | T, [] => T
+  | T, (now, _, _) :: rest => maxTime (max T now) rest
+
+theorem timersCover_run : ∀ (h : List (Nat × List Packet × List Command)) (hist : List Delivery) (T : Nat) (s : State),
+    WellFormed hist s → TimersCover T s →
+    WellFormed (hist ++ C03.histOf s h) (run s h).1 ∧ TimersCover (maxTime T h) (run s h).1
+  | [], hist, T, s, hw, hc => by simpa [C03.histOf, run, maxTime] using ⟨hw, hc⟩
+  | (now, pkts, cmds) :: rest, hist, T, s, hw, hc => by
+    have h1 := wellFormed_iter hist s now pkts cmds hw
+    have h2 := timersCover_iter hist T s now pkts cmds hw hc
+    have h3 := timersCover_run rest _ _ _ h1 h2
+    simpa [C03.histOf, run, maxTime, List.append_assoc] using h3
+
+theorem timersCover_init (t0 : Nat) (intfs : List Intf) : WellFormed [] (init t0 intfs) ∧ TimersCover 0 (init t0 intfs) := by
+  refine ⟨⟨cacheProv_empty [], keysNodup_empty, fun _ h => by cases h⟩, ⟨?_, ?_, ?_, ?_⟩⟩
+  · exact cacheAll_empty _
+  · intro r hr
+    cases hr
+  · intro q hq
+    cases hq
+  · intro _ _
+    simp [init]
+
+/-- **TimersCover holds after every history** from the start of the daemon -/
+theorem timersCover_always (t0 : Nat) (intfs : List Intf) (h : List (Nat × List Packet × List Command)) :
+    TimersCover (maxTime 0 h) (run (init t0 intfs) h).1 := by
+  obtain ⟨hw, hc⟩ := timersCover_init t0 intfs
+  exact (timersCover_run h [] 0 _ hw hc).2
+
+/-- the instants at which the state has time-driven work to do: a cached record expires
+    (removal event, `AddressesRemoved`, re-resolution); a cached record reaches its refresh mark
+    before it expires; a queued re-run is due (retransmission, follow-up resolve, verify
+    resend); the deadline of a hostname search; the interface check -/
+def Due (s : State) (d : Nat) : Prop :=
+  (∃ sl : Slot, ∃ p ∈ s.cache.table sl, ∃ e ∈ p.2, d = e.record.expires) ∨
+  (∃ sl : Slot, ∃ p ∈ s.cache.table sl, ∃ e ∈ p.2, d = e.record.refresh ∧ e.record.refresh < e.record.expires) ∨
+  (∃ r ∈ s.reruns, d = r.next) ∨
+  (∃ q ∈ s.resolvers, q.2.2 = some d) ∨
+  (s.nextIpCheck ≠ 0 ∧ d = s.nextIpCheck)
+
+theorem wake_le_timer_client (s : State) (t : Nat) (h : t ∈ s.timers) : ∃ w, wake s = some w ∧ w ≤ t := by
+  unfold wake
+  cases hm : s.timers.min? with
+  | none =>
+    rw [List.min?_eq_none_iff] at hm
+    simp [hm] at h
+  | some w => exact ⟨w, rfl, (List.min?_eq_some_iff.mp hm).2 t h⟩
+
+/-- **wake_never_late**: in a state whose timers cover the work after `T`, the wake-up the
+    daemon asks for is never later than any due work that lies after `T` -/
+theorem wake_never_late (T : Nat) (s : State) (h : TimersCover T s) (d : Nat) (hd : Due s d) (hT : T < d) :
+    ∃ w, wake s = some w ∧ w ≤ d := by
+  apply wake_le_timer_client
+  rcases hd with ⟨sl, p, hp, e, he, rfl⟩ | ⟨sl, p, hp, e, he, rfl, hlt⟩ | ⟨r, hr, rfl⟩ | ⟨q, hq, hdl⟩ | ⟨hne, rfl⟩
+  · exact (h.cache sl p hp e he).1 hT
+  · exact (h.cache sl p hp e he).2.1 hT hlt
+  · exact h.reruns r hr hT
+  · exact h.deadlines q hq d hdl hT
+  · exact h.ipcheck hne hT
+
+/-- **wake_never_late (whole histories)**: start the daemon, run ANY history; the wake-up
+    requested afterwards is no later than any due work - record expiry, refresh mark,
+    retransmission, follow-up, verify resend / deadline, hostname-search deadline, interface
+    check - that lies after the latest iteration time.  (Cached records never lie before:
+    `expiry_after_last`.) -/
+theorem wake_never_late_run (t0 : Nat) (intfs : List Intf) (h : List (Nat × List Packet × List Command)) (d : Nat)
+    (hd : Due (run (init t0 intfs) h).1 d) (hT : maxTime 0 h < d) :
+    ∃ w, wake (run (init t0 intfs) h).1 = some w ∧ w ≤ d :=
+  wake_never_late _ _ (timersCover_always t0 intfs h) d hd hT
+
+/-- after an iteration at `now` every cached entry expires after `now`: with non-decreasing
+    iteration times the expiry of every cached record is always covered -/
+theorem expiry_after_last (s : State) (now : Nat) (pkts : List Packet) (cmds : List Command) (sl : Slot)
+    (p : BList × List Entry) (hp : p ∈ (iter s now pkts cmds).1.cache.table sl) (e : Entry) (he : e ∈ p.2) :
+    now < e.record.expires :=
+  (iter_allLive s now pkts cmds).1 sl p hp e he
+
+/-- never spinning, cache side: after an iteration at `now` no timer that was pending before
+    lies at or before `now` (they are popped), and what the iteration arms for cached records
+    lies after `now` unless a record arrives with TTL 0 or a `verify` has time-out 0 -/
+theorem old_timers_popped (hist : List Delivery) (s : State) (now : Nat) (pkts : List Packet) (cmds : List Command)
+    (hw : WellFormed hist s) (t : Nat) (ht : t ∈ (iter s now pkts cmds).1.timers) :
+    (t ∈ s.timers ∧ now < t) ∨ IterTimer now (hist ++ deliveries s now pkts) cmds t ∨
+      (t = (iter s now pkts cmds).1.nextIpCheck ∧ now < t) :=
+  (evolves_iter hist s now pkts cmds hw.prov hw.delays).timers_new t ht
+
+/-! ### consequence for C17: an iteration that is on time reports no address that ran out -/
+
+/-- an iteration at `now` that is not later than the wake-up the daemon asked for finds no
+    cached entry that expired before `now` -/
+theorem on_time_nothing_expired (T : Nat) (s : State) (now : Nat) (h : TimersCover T s)
+    (hl : CacheAll (fun e => T < e.record.expires) s.cache) (hon : ∀ t ∈ s.timers, now ≤ t) :
+    CacheAll (fun e => now ≤ e.record.expires) s.cache :=
+  fun sl p hp e he => hon _ ((h.cache sl p hp e he).1 (hl sl p hp e he))
+
+/-- **hfound on time**: if the iteration at `now` is not later than the requested wake-up
+    (`now ≤` every pending timer), every address of every `AddressesFound` it emits comes from a
+    delivered record whose lifetime does not end before `now` - the reading of C17 with the
+    exact expiry instant left open, as the monitor has it. -/
+theorem hfound_on_time (hist : List Delivery) (cmds0 : List Command) (T : Nat) (s : State) (now : Nat)
+    (pkts : List Packet) (cmds : List Command) (hc : CacheProv hist s.cache) (hcov : TimersCover T s)
+    (hl : CacheAll (fun e => T < e.record.expires) s.cache) (hr : ResolversFrom cmds0 s.resolvers)
+    (hon : ∀ t ∈ s.timers, now ≤ t) (ch : Nat) (host : BList) (addrs : List AddrItem)
+    (hm : Out.event ch (.hfound host addrs) ∈ (iter s now pkts cmds).2) :
+    ∀ a ∈ addrs, ∃ d ∈ hist ++ deliveries s now pkts, d.wire.name = host ∧ (d.wire.ty = 1 ∨ d.wire.ty = 28) ∧
+      (d.wire.rdata = .a a.1 ∨ d.wire.rdata = .aaaa a.1) ∧ d.ifName = a.2.1 ∧ d.ifIdx = a.2.2 ∧
+      now ≤ d.time + 1000 * d.wire.ttl := by
+  have hfl : CacheAll (Floor now now) s.cache :=
+    (on_time_nothing_expired T s now hcov hl hon).mono fun e he => Or.inr he
+  have h := C17.hfound_sound_floor hist cmds0 now s now pkts cmds hc hfl hr ch host addrs hm
+  intro a ha
+  obtain ⟨d, hd, h1, h2, h3, h4, h5, h6⟩ := h.addr a ha
+  exact ⟨d, hd, h1, h2, h3, h4, h5, by omega⟩
+
+/-! ### non-vacuity -/
+
+/-- only a hostname search, no browse: the address (TTL 10 s, received at 1500) has its refresh
+    mark at 9500; after the retransmissions at 2000, 4000, 8000 (next one 16000) the daemon asks
+    to be woken at 9500 - the history on which "refresh timer only while browsing" loses the
+    wake-up -/
+example :
+    wake (run (init 1000 [C03.eth0])
+      [(1000, [], [.resolveHost C17.hostH 7 none]), (1500, [C17.addrPkt C17.hostLower 10 [10, 0, 0, 1]], []),
+       (2000, [], []), (4000, [], []), (8000, [], [])]).1 = some 9500 := by decide
+
+example : Due (run (init 1000 [C03.eth0])
+      [(1000, [], [.resolveHost C17.hostH 7 none]), (1500, [C17.addrPkt C17.hostLower 10 [10, 0, 0, 1]], [])]).1 9500 := by
+  refine Or.inr (Or.inl ⟨.addr, (C17.hostLower, [⟨Record.new C17.hostLower 1 1 false 10 (.addr [10, 0, 0, 1] [0x65] 2) 1500, [0x65], 2⟩]),
+    ?_, ⟨Record.new C17.hostLower 1 1 false 10 (.addr [10, 0, 0, 1] [0x65] 2) 1500, [0x65], 2⟩, ?_, ?_, ?_⟩)
+  · decide
+  · decide
+  · decide
+  · decide
+
+end ClientModel
 
 end Mdns.Props.C12
